@@ -33,8 +33,10 @@ META = {
     "the focus or sent a notification; distinct = distinct operation histories ending in such an operation (each expanded "
     "state is reached by exactly one history)",
     "assumptions": [
-        "a flow's fields are only changed by an `edit` operation that ends with update([flow]) - the view is judged only in "
-        "states where it has been told about every change",
+        "a flow's fields are changed by `edit` (change + update([flow])) or, in the order scope, by `mutate` (change without "
+        "telling the view, as happens between two hooks of a live flow); after a mutate the flow's filter/marked membership "
+        "and its position are not judged until the next update of that flow, but everything else is (a removed or cleared "
+        "flow must be gone from the view whatever happened to its sort key)",
         "order by method/url constrains only pairs of HTTP flows (what 'method'/'url' of a TCP or DNS flow is, is not in the "
         "statement); order by time and size constrains all pairs; ties are unconstrained",
         "notifications: without a refresh signal, flows entering/leaving the view need exactly one view_add/view_remove, "
@@ -71,7 +73,8 @@ FULL_QUICK = {"name": "full", "pool": ["g", "p", "t"], "prefix": [],
               "ops": ["add", "update", "remove", "edit", "filter", "order", "reverse", "marked", "clear", "clear_unmarked", "focus"]}
 FULL_THOROUGH = dict(FULL_QUICK, pool=["g", "p", "t", "d"])
 ORDER_SCOPE = {"name": "order", "pool": ["g", "p"], "prefix": [["add", "g"], ["add", "p"]],
-               "ops": ["edit", "filter", "order", "reverse", "marked", "remove", "add"], "edit_fields": ["size", "meth", "mark"],
+               "ops": ["edit", "mutate", "filter", "order", "reverse", "marked", "remove", "add"],
+               "edit_fields": ["size", "meth", "mark"], "mutate_fields": ["size", "meth"],
                "filters": [0, 1], "orders": ["time", "size", "method"]}
 
 
@@ -195,6 +198,8 @@ class Sys:
         self.reversed = False
         self.marked_only = False
         self.oos = set()       # (name, order): key changed by an edit while the flow was not shown or another order was selected
+        self.dirty = set()     # flows changed by `mutate` (no update() yet): the view has not been told, so their
+        #                        filter/marked membership and their position are not judged until the next update
         self.step = None
 
 
@@ -204,6 +209,7 @@ class Spec:
         self.pool = scope["pool"]
         self.ops = set(scope["ops"])
         self.edit_fields = scope.get("edit_fields", ["mark", "meth", "url", "size"])
+        self.mutate_fields = scope.get("mutate_fields", ["meth", "size"])
         self.filters = scope.get("filters", [0, 1, 2])
         self.orders = scope.get("orders", ORDERS)
 
@@ -249,6 +255,7 @@ class Spec:
             list(v._store), [f.id for f in v._view], s.fidx, s.order, v.order_reversed, v.show_marked,
             v.focus.flow.id if v.focus.flow else None, self.cache(s),
             sorted((n, sorted(d.items())) for n, d in s.val.items()), s.store, s.reversed, s.marked_only, sorted(s.oos),
+            sorted(s.dirty),
         ]
 
     def actions(self, s):
@@ -265,6 +272,10 @@ class Spec:
                     for fld in self.edit_fields:
                         if fld in FIELDS[n]:
                             acts.append(["edit", n, fld])
+                if "mutate" in ops:
+                    for fld in self.mutate_fields:
+                        if fld in FIELDS[n]:
+                            acts.append(["mutate", n, fld])
                 if "remove" in ops:
                     acts.append(["remove", n])
         if "filter" in ops:
@@ -293,12 +304,16 @@ class Spec:
             f = s.flows.get(n)
             if n not in s.store:
                 d.add(("extra_not_stored", n))
+            elif n in s.dirty:
+                pass
             elif not m_matches(s.fidx, f, n):
                 d.add(("extra_filtered_out", n))
             elif s.marked_only and not f.marked:
                 d.add(("extra_unmarked", n))
         for n in s.store:
             f = s.flows[n]
+            if n in s.dirty:
+                continue
             if m_matches(s.fidx, f, n) and (f.marked or not s.marked_only) and n not in shown:
                 d.add(("missing", n))
         return d
@@ -310,7 +325,7 @@ class Spec:
         for i, a in enumerate(shown):
             for b in shown[i + 1:]:
                 ka, kb = keys.get(a), keys.get(b)
-                if ka is None or kb is None or a == b:
+                if ka is None or kb is None or a == b or a in s.dirty or b in s.dirty:
                     continue
                 if (ka < kb) if s.reversed else (ka > kb):
                     bad.add((a, b))
@@ -344,9 +359,9 @@ class Spec:
         pre_focus_id = v.focus.flow.id if v.focus.flow else None
         pre_settings = set(v.settings) - set(pre_store)
         s.rec.log = []
-        opname = op if op != "edit" else "edit_" + a[2]
+        opname = op if op not in ("edit", "mutate") else op + "_" + a[2]
         op_class = {"edit": "update"}.get(op, op)
-        target = a[1] if op in ("add", "update", "edit", "remove") else None
+        target = a[1] if op in ("add", "update", "edit", "mutate", "remove") else None
         exc = None
         try:
             if op == "add":
@@ -354,7 +369,22 @@ class Spec:
                 s.store.append(target)
             elif op == "update":
                 v.update([s.flows[target]])
+                s.dirty.discard(target)
+            elif op == "mutate":
+                # the flow changes, nobody tells the view (a later update/remove/clear has to cope)
+                fld = a[2]
+                f = s.flows[target]
+                old_keys = {o: m_key(o, f, target) for o in ORDERS}
+                cur = s.val[target][fld]
+                new = FIELDS[target][fld][1] if cur == FIELDS[target][fld][0] else FIELDS[target][fld][0]
+                set_field(f, target, fld, new)
+                s.val[target][fld] = new
+                s.dirty.add(target)
+                for o in ORDERS:
+                    if m_key(o, f, target) != old_keys[o]:
+                        s.oos.add((target, o))
             elif op == "edit":
+                s.dirty.discard(target)
                 fld = a[2]
                 f = s.flows[target]
                 old_keys = {o: m_key(o, f, target) for o in ORDERS}
@@ -375,6 +405,7 @@ class Spec:
                 v.remove([s.flows[target]])
                 s.store.remove(target)
                 s.oos = {x for x in s.oos if x[0] != target}
+                s.dirty.discard(target)
             elif op == "filter":
                 v.set_filter_cmd(FILTERS[a[1]] or "")
                 s.fidx = a[1]
@@ -391,11 +422,13 @@ class Spec:
                 v.clear()
                 s.store = []
                 s.oos = set()
+                s.dirty = set()
             elif op == "clear_unmarked":
                 v.clear_not_marked()
                 gone = [n for n in s.store if not s.flows[n].marked]
                 s.store = [n for n in s.store if s.flows[n].marked]
                 s.oos = {x for x in s.oos if x[0] not in gone}
+                s.dirty -= set(gone)
             elif op == "focus":
                 if a[1] == "next":
                     v.focus_next()
@@ -520,7 +553,7 @@ class Spec:
 def run(ctx):
     full = FULL_THOROUGH if ctx.thorough else FULL_QUICK
     full_depth = ctx.pick(4, 5)
-    order_depth = ctx.pick(6, 7)
+    order_depth = ctx.pick(5, 6)
     ctx.bounds = {
         "filters": FILTERS, "orders": ORDERS, "editable_fields": {n: {k: list(v) for k, v in d.items()} for n, d in FIELDS.items()},
         "full": dict(full, depth=full_depth),
